@@ -314,6 +314,15 @@ def cases(tier, seed):
                 if nfiles == 4 and failmask % 3:
                     continue
                 yield {"k": "latexfail", "n": nfiles, "fail": failmask, "slow": slow}
+                if nfiles < 4:
+                    for how in ("KILLLATEX", "TERMLATEX"):
+                        yield {"k": "latexfail", "n": nfiles, "fail": failmask, "slow": slow,
+                               "how": how}
+    # (i) names formatted from values that are equal but print differently
+    for si in range(len(TYPED_SEQS)):
+        for where in ("filename", "dirname", "writedir"):
+            for dup in (0, 1):
+                yield {"k": "typednames", "seq": si, "where": where, "dup": dup}
     # (f) MakeFilename naming rules
     for ci in range(len(MK_CONTEXTS)):
         for first in range(len(MK_VOCAB)):
@@ -1145,7 +1154,8 @@ def run_latexfail(r, obs):
         for i in range(n):
             p = os.path.join(root, "t%d.tex" % i)
             with open(p, "w") as f:
-                f.write("doc %d\n%s\nend" % (i, "FAILLATEX" if failmask >> i & 1 else "fine"))
+                f.write("doc %d\n%s\nend" % (i, r.get("how", "FAILLATEX")
+                                               if failmask >> i & 1 else "fine"))
             texs.append(p)
 
         def flow():
@@ -1163,8 +1173,9 @@ def run_latexfail(r, obs):
         obs.count("converter_failure_runs")
         missing = [v[0] for v in out if isinstance(v, tuple) and isinstance(v[0], str)
                    and not os.path.exists(v[0])]
-        obs.check(not missing, "yielded-file-does-not-exist:converter-failed:%s-flow"
-                  % ("slow" if slow else "fast"),
+        obs.check(not missing, "yielded-file-does-not-exist:converter-%s:%s-flow"
+                  % ("failed" if "how" not in r else "killed-by-signal",
+                     "slow" if slow else "fast"),
                   "LaTeXToPDF/PDFToPNG over %d tex files (failing: %s, %s flow) yielded %r, of "
                   "which %r do not exist" % (n, [i for i in range(n) if failmask >> i & 1],
                                              "slow" if slow else "fast",
@@ -1258,6 +1269,94 @@ def run_writetable(r, obs):
         shutil.rmtree(d, ignore_errors=True)
 
 
+TYPED_SEQS = [[1, 1.0], [1.0, 1], [True, 1, 1.0], [0, 0.0, False], [0.0, -0.0], [2, 2.0, 2],
+              ["1", 1], [1, 2, 3], ["a", "a"], [1, 1], ["Dec:1.0", "Dec:1.00"],
+              ["Frac:2/2", 1], [[1, 2], [1, 2]], ["mut"]]
+
+
+def _typed_value(x):
+    import decimal
+    import fractions
+    if isinstance(x, str) and x.startswith("Dec:"):
+        return decimal.Decimal(x[4:])
+    if isinstance(x, str) and x.startswith("Frac:"):
+        a, b = x[5:].split("/")
+        return fractions.Fraction(int(a), int(b))
+    return x
+
+
+def run_typednames(r, obs):
+    """One MakeFilename (+ Write with a formatted directory) over a flow whose consecutive
+    values carry format arguments that are equal but print differently (1, 1.0, True) - or the
+    same mutable object changed in place between two values: every value gets the name and the
+    file its own context gives, and every named file holds its own value's text."""
+    import shutil
+    import tempfile
+    import lena.core
+    import lena.output
+    obs.nontrivial = True
+    seq_r, where, dup = TYPED_SEQS[r["seq"]], r["where"], r["dup"]
+    d = tempfile.mkdtemp(prefix="rv_c19_t_")
+    try:
+        if seq_r == ["mut"]:
+            shared = [1]
+            vals = [shared, shared, shared]
+        else:
+            vals = [_typed_value(x) for x in seq_r]
+        mk = lena.output.MakeFilename("run_{{run}}") if where != "dirname" else \
+            lena.output.MakeFilename("f{{i}}", dirname="d_{{run}}")
+        wdir = d if where != "writedir" else os.path.join(d, "o_{{sel}}")
+        els = [mk, lena.output.Write(wdir, verbose=False)]
+        pipe = lena.core.Sequence(*els)
+        if dup:
+            pipe = copy.deepcopy(pipe)
+
+        def flow():
+            for i, v in enumerate(vals):
+                if seq_r == ["mut"]:
+                    v[0] = i + 1           # the same list, changed in place
+                yield ("text of value %d" % i,
+                       {"run": v, "i": i, "output": {"fileext": "txt"}})
+        static = {"sel": "x"}
+        if where == "writedir":
+            pipe._set_context(static)
+        out = []
+        expected = []
+        for i, res in enumerate(pipe.run(flow())):
+            out.append(res)
+        for i, v in enumerate(vals):
+            shown = "[%d]" % (i + 1) if seq_r == ["mut"] else "{}".format(v)
+            if where == "dirname":
+                rel = os.path.join("d_" + shown, "f%d.txt" % i)
+            else:
+                rel = "run_%s.txt" % shown
+            base = d if where != "writedir" else os.path.join(d, "o_x")
+            expected.append(os.path.join(base, rel))
+        obs.count("typed_name_flows")
+        got_paths = [res[0] if isinstance(res, tuple) else res for res in out]
+        obs.check(got_paths == expected, "file-name-differs-from-format:equal-but-differently-"
+                  "printed-arguments" + (":deep-copied-pipeline" if dup else ""),
+                  "MakeFilename/Write over the flow of run values %r yielded files %r, the format "
+                  "strings give %r" % (seq_r, [os.path.relpath(p, d) for p in got_paths
+                                               if isinstance(p, str)],
+                                       [os.path.relpath(p, d) for p in expected]))
+        # the last value written to a path is what the file holds
+        last_text = {}
+        for i, p in enumerate(expected):
+            last_text[p] = "text of value %d" % i
+        for p, text in sorted(last_text.items()):
+            try:
+                with open(p) as f:
+                    on_disk = f.read()
+            except OSError:
+                on_disk = None
+            obs.check(on_disk == text, "file-content-wrong:typed-names",
+                      "file %s holds %r, the (last) value named so has %r (run values %r)"
+                      % (os.path.relpath(p, d), on_disk, text, seq_r))
+    finally:
+        shutil.rmtree(d, ignore_errors=True)
+
+
 _REPORTED = {}          # mech -> number of violations reported by this worker process
 MAX_PER_MECH = 4        # per worker process; further repeats are counted, not listed
 
@@ -1272,6 +1371,8 @@ def run_case(r, obs):
             run_writetable(r, obs)
         elif r["k"] == "latexfail":
             run_latexfail(r, obs)
+        elif r["k"] == "typednames":
+            run_typednames(r, obs)
         else:
             raise ValueError(r["k"])
     finally:
@@ -1280,3 +1381,7 @@ def run_case(r, obs):
 
 
 RULE += (' Added: Write against an existing file (9 sizes around 64 KiB x 8 relations of the new text to the existing content x 3 option sets x 3 incoming flags); MakeFilename contexts with empty existing names.')
+RULE += (' Added: converters terminated by a signal (KILL / TERM) instead of exiting with a status; '
+         'one MakeFilename / Write over flows whose consecutive values carry format arguments that '
+         'are equal but print differently (1 / 1.0 / True, Decimal 1.0 / 1.00, a list changed in '
+         'place), original and deep-copied pipeline.')
